@@ -198,11 +198,19 @@ def corner_calls(M, rec, rng, reps):
         d = rng.choice((0.0, capnow, max(0.0, capnow - w / T), rng.uniform(0, 2 * C), rng.uniform(0, 50)))
         which = rng.choice(("ramp", "ramp", "simple", "main"))
         rec.count("corner_calls")
+        s1 = s
+        if side == "numpy" and which != "main" and rng.random() < 0.12:
+            # detector densities stored as unsigned integers, the customary whole-number parameters as Python ints
+            rmax, rc, C = int(round(rmax)), int(round(rc)), int(round(C))
+            r1 = float(min(int(round(r1)), rmax))
+            dt_ = rng.choice((np.uint16, np.uint32))
+            s1 = lambda x, dt_=dt_: np.array([int(x)], dtype=dt_)  # noqa: E731
+            rec.count("corner_calls_with_unsigned_integer_densities")
         if which == "ramp":
-            E.OriginsEngine.get_ramp_flow(s(d), s(w), C, s(r_), rmax, s(r1), rc, T, "".join(list(rng.choice(("in", "out")))))
+            E.OriginsEngine.get_ramp_flow(s(d), s(w), C, s(r_), rmax, s1(r1), rc, T, "".join(list(rng.choice(("in", "out")))))
         elif which == "simple":
             qd = rng.choice((0.0, math.inf, capnow, d + w / T, rng.uniform(0, 2 * C)))
-            E.OriginsEngine.get_simplifiedramp_flow(s(qd), s(d), s(w), C, rmax, s(r1), rc, T, "".join(list("limited")))
+            E.OriginsEngine.get_simplifiedramp_flow(s(qd), s(d), s(w), C, rmax, s1(r1), rc, T, "".join(list("limited")))
         else:
             a = rng.uniform(1.0, 3.5)
             vf = rng.uniform(90, 130)
